@@ -32,13 +32,13 @@ REPLAY_DIR = os.path.join(os.environ["VERIF_EVIDENCE_DIR"], "replays") if os.env
 
 # tier sizes: (runs INTERP, runs JIT, workers INTERP, workers JIT)
 SIZES = {
-    "C05": {"quick": (6000, 4000), "thorough": (60000, 240000)},
-    "C06": {"quick": (6000, 4000), "thorough": (60000, 240000)},
-    "C14": {"quick": (5000, 3000), "thorough": (50000, 200000)},
-    "C09": {"quick": (4000, 3000), "thorough": (40000, 160000)},
-    "C10": {"quick": (4000, 3000), "thorough": (40000, 160000)},
-    "C17": {"quick": (4000, 3000), "thorough": (40000, 160000)},
-    "C19": {"quick": (3000, 3000), "thorough": (30000, 120000)},
+    "C05": {"quick": (6000, 12000), "thorough": (60000, 300000)},
+    "C06": {"quick": (6000, 12000), "thorough": (60000, 300000)},
+    "C14": {"quick": (5000, 9000), "thorough": (50000, 250000)},
+    "C09": {"quick": (4000, 9000), "thorough": (40000, 200000)},
+    "C10": {"quick": (4000, 9000), "thorough": (40000, 200000)},
+    "C17": {"quick": (4000, 6000), "thorough": (40000, 160000)},
+    "C19": {"quick": (3000, 9000), "thorough": (30000, 200000)},
     "C16": {"quick": (200, 1600), "thorough": (2000, 30000)},
 }
 
